@@ -88,7 +88,8 @@ fn compositions(ctx: &Ctx, sink: &mut Sink) {
   let mut rng = ctx.rng(901);
   let n = if ctx.quick() { 3000 } else { 90000 };
   for k in 0..n {
-    let j = rng.range(1721424 + 40, 5373484 - 800);
+    // from AD 260 on: the reform seams of AD 9-25 and 236-240 are C02 findings, not eight-character defects
+    let j = rng.range(1816000, 5373484 - 800);
     let h = if k % 4 == 0 { *rng.pick(&[0i64, 23, 22, 1]) } else { rng.range(0, 23) };
     let t = match time_at(j, h, rng.range(0, 59), rng.range(0, 59)) {
       Some(t) => t,
@@ -108,7 +109,7 @@ fn searches(ctx: &Ctx, sink: &mut Sink) {
   let mut guard = 0;
   while done < n && guard < n * 4 {
     guard += 1;
-    let j = rng.range(1721424 + 800, 5373484 - 800);
+    let j = rng.range(1870000, 5373484 - 800); // from about AD 410: year ranges of +-130 stay clear of the reform seams
     let h = rng.range(0, 23);
     let t = match time_at(j, h, rng.range(0, 59), rng.range(0, 59)) {
       Some(t) => t,
